@@ -290,30 +290,33 @@ Definition W (c : logcfg) (i : N) (lens : list N) : op := OWrite c (mts i) lens.
 Definition Dm (m : N) (i : N) : op := ODump m (mts i) 0%N.
 Definition Tk (i : N) : evop := ETick (List.app (b_of "18") (pad 17 i)).
 Definition P (n : string) (sz : N) : ent := (b_of n, sz, 0%N).
+(* a generated name: literal prefix, model time stamp of step i, literal suffix *)
+Definition G (p : bytes) (i : N) (s : bytes) : bytes := List.app p (List.app (mts i) s).
+Definition E (i : N) : bytes := List.app (b_of "18") (List.app (pad 17 i) (b_of ".json")).
 Fixpoint lbeq (a b : list bytes) : bool :=
   match a, b with [], [] => true | x :: a', y :: b' => beq x y && lbeq a' b' | _, _ => false end.
 Fixpoint neq (a b : list N) : bool :=
   match a, b with [], [] => true | x :: a', y :: b' => (x =? y)%N && neq a' b' | _, _ => false end.
 (* expected: per step (Some names if the name list changed, sizes) *)
 Fixpoint chk (i : nat) (prev : list bytes) (ms : list (list (bytes * N)))
-             (es : list (option (list string) * list N)) : option nat :=
+             (es : list (option (list bytes) * list N)) : option nat :=
   match ms, es with
   | [], [] => None
   | m :: ms', (on, ss) :: es' =>
-      let ns := match on with Some l => map b_of l | None => prev end in
+      let ns := match on with Some l => l | None => prev end in
       if lbeq (map fst m) ns && neq (map snd m) ss then chk (S i) ns ms' es' else Some i
   | _, _ => Some i
   end.
 (* events: only the steps at which the real directory was listed are compared *)
 Fixpoint chk_ev (i : nat) (ms : list (list (bytes * N) * N))
-                (es : list (option (list string * list N))) : option nat :=
+                (es : list (option (list bytes * list N))) : option nat :=
   match ms, es with
   | [], [] => None
   | m :: ms', e :: es' =>
       match e with
       | None => chk_ev (S i) ms' es'
       | Some (ns, ss) =>
-          if lbeq (map fst (fst m)) (map b_of ns) && neq (map snd (fst m)) ss
+          if lbeq (map fst (fst m)) ns && neq (map snd (fst m)) ss
           then chk_ev (S i) ms' es' else Some i
       end
   | _, _ => Some i
@@ -334,15 +337,40 @@ def c_cfg(cfg):
     return "{| lname := b_of %s; lmax_size := %s; lmax_count := %s |}" % (cs(cfg[0]), cN(cfg[1]), cN(cfg[2]))
 
 
-def c_expected(exp):
+class Names:
+    """string literals are bound once per expression (let q0 := b_of "..." in ...): type-checking
+    the literals is what costs time in coqc"""
+
+    def __init__(self):
+        self.lits = {}
+
+    def lit(self, x):
+        if x not in self.lits:
+            self.lits[x] = "q%d" % len(self.lits)
+        return self.lits[x]
+
+    def name(self, nm):
+        m = MODEL_TS.search(nm)
+        if m:
+            return "(G %s %d%%N %s)" % (self.lit(nm[:m.start()]), int(m.group(0)[8:]), self.lit(nm[m.end():]))
+        m = MODEL_EV.match(nm)
+        if m:
+            return "(E %d%%N)" % int(nm[2:19])
+        return self.lit(nm)
+
+    def lets(self):
+        return "".join("let %s := b_of %s in " % (v, cs(k)) for k, v in self.lits.items())
+
+
+def c_expected(exp, nt):
     """exp: list of sorted [(name, size)] -> delta-encoded Coq literal"""
     items, prev = [], None
     for l in exp:
         ns = [n for n, _ in l]
-        on = "None" if ns == prev else "(Some %s)" % clist([cs(n) for n in ns], "string")
+        on = "None" if ns == prev else "(Some %s)" % clist([nt.name(n) for n in ns], "bytes")
         items.append("(%s, %s)" % (on, clist([cN(sz) for _, sz in l], "N")))
         prev = ns
-    return clist(items, "(option (list string) * list N)%type")
+    return clist(items, "(option (list bytes) * list N)%type")
 
 
 def log_model_ops(h):
@@ -364,7 +392,9 @@ def log_model_ops(h):
 
 def log_expr(h, expected):
     lets, ops = log_model_ops(h)
-    return "%schk 0 [] (run_listings %s %s) %s" % (lets, c_dir(h["pre"]), ops, c_expected(expected))
+    nt = Names()
+    e = c_expected(expected, nt)
+    return "%s%schk 0 [] (run_listings %s %s) %s" % (lets, nt.lets(), c_dir(h["pre"]), ops, e)
 
 
 def log_expr_full(h):
@@ -388,12 +418,13 @@ def ev_model_ops(h):
 
 def ev_expr(h, expected):
     items = []
+    nt = Names()
     for l in expected:
         if l is None:
             items.append("None")
         else:
-            items.append("(Some (%s, %s))" % (clist([cs(n) for n, _ in l], "string"), clist([cN(x) for _, x in l], "N")))
-    return "chk_ev 0 (ev_run_listings %s) %s" % (ev_model_ops(h), clist(items, "(option (list string * list N))%type"))
+            items.append("(Some (%s, %s))" % (clist([nt.name(n) for n, _ in l], "bytes"), clist([cN(x) for _, x in l], "N")))
+    return "%schk_ev 0 (ev_run_listings %s) %s" % (nt.lets(), ev_model_ops(h), clist(items, "(option (list bytes * list N))%type"))
 
 
 def ev_expr_full(h):
@@ -405,7 +436,9 @@ def dump_model_ops(h):
 
 
 def dump_expr(h, expected):
-    return "chk 0 [] (run_listings %s %s) %s" % (c_dir(h["pre"]), dump_model_ops(h), c_expected(expected))
+    nt = Names()
+    e = c_expected(expected, nt)
+    return "%schk 0 [] (run_listings %s %s) %s" % (nt.lets(), c_dir(h["pre"]), dump_model_ops(h), e)
 
 
 def dump_expr_full(h):
@@ -442,7 +475,7 @@ def to_model_names(steps, pre_names, keep, ts_re, model_name, size_of=None):
 # ------------------------------------------------------------------------------------------
 # the property itself, evaluated on what the real code did
 # ------------------------------------------------------------------------------------------
-def prop_log(h, listings0, results, ctx_cov):
+def prop_log(h, listings0, results):
     """the property text evaluated on the real directory after every op (dict name->size);
     returns a description of the first failure or None"""
     tl = cfg_timeline(h)
@@ -568,6 +601,11 @@ def run(ctx):
     consts = open(os.path.join(vplib.COQ, "Generated", "Consts.v")).read()
     m = re.search(r"Definition log_header_len : N := (\d+)\.", consts)
     HEADER = int(m.group(1))
+    # the names the agent and the extension really use, as the code has them now
+    real = {k: re.search(r"Definition %s : list N := .*?\(\* '([^']*)'" % k, consts).group(1)
+            for k in ("agent_log_file_name", "agent_connection_log_file_name", "ext_handler_log_file", "ext_service_log_file")}
+    NAME_SETS[2] = ([real["agent_log_file_name"], real["agent_connection_log_file_name"]], 12)
+    NAME_SETS[7] = ([real["ext_handler_log_file"], real["ext_service_log_file"]], 3)
 
     n_log, n_ev, n_dump = (200, 60, 60) if ctx.quick else (1500, 400, 400)
     logs = [gen_log_history(rng, i, ctx.quick) for i in range(n_log)]
@@ -717,7 +755,7 @@ def run(ctx):
                 if len(mk) <= len(prevn):
                     trims += 1
             prevn = mk
-        why = prop_log(h, l0, rs, ctx.coverage)
+        why = prop_log(h, l0, rs)
         if why:
             failures.append({"case": case, "why": why, "impl": [sorted(r.items()) for r in real[:400]]})
     for h, (l0, rs), e, res in zip(evs, impl_ev, exp_ev, res_ev):
